@@ -308,6 +308,20 @@ def replay(path):
     info = json.load(open(path))
     prop = info["property"]
     work = vlib.Work(prop, "replay")
+    if info.get("kind") == "crash":
+        # run the same harness command again against the current tree
+        try:
+            vh = vlib.build_harness(work)
+            args = [a if not a.endswith(".ndjson") else work.path(os.path.basename(a)) for a in info["harness_args"]]
+            try:
+                vlib.run_harness(work, vh, args, timeout=3000)
+            except vlib.CrashInAnchoredCode as e:
+                print("FAIL harness %s: panic at %s" % (" ".join(args[:6]), e.where))
+                return 1
+            print("replayed %s: no panic" % " ".join(args[:6]))
+            return 0
+        finally:
+            work.cleanup()
     try:
         module = info.get("module") or "TraceBoard"
         r = vlib.validate_trace(work, module, [prop], info["trace"], extra_constants=info.get("constants"))
